@@ -87,10 +87,11 @@ CLAIMS.update({
             "result (C01_parse_total) -- the parser never panics (C01_parse_partial, C01_reductions_typed: a typed-stack invariant whose "
             "table-specific parts are finite checks computed by Coq over all 256 states and 210 productions) and its loops never exhaust "
             "their fuel (C01_loops_terminate: no run of reductions exceeds a bound computed from the tables, recovery's accepts simulation "
-            "keeps its promise, every dropped token shortens the text; C01_inner_loops_fuel_immaterial); validation of grammar-shaped trees "
+            "keeps its promise, every dropped token shortens the text; C01_inner_loops_fuel_immaterial, C01_lexer_fuel_immaterial, "
+            "C01_regex_fuel_immaterial); validation of grammar-shaped trees "
             "cannot panic (C01_validation_total) and every tree the parser stores is grammar-shaped (C01_parsed_tree_is_grammar_shaped, "
-            "C01_parsed_tree_validates), so validate over any set of held files returns one result per file tagged with its id (C01_total, "
-            "C01_ids); one slot per id after any history (C01_slots); every position is a character boundary inside the text "
+            "C01_parsed_tree_validates), so validate over any set of held files -- and after any history of add_content / remove / add_file / "
+            "validate (C01_any_history) -- returns one result per file tagged with its id (C01_total, C01_ids); one slot per id after any history (C01_slots); every position is a character boundary inside the text "
             "(C01_positions_partial). The theorems are about the Gallina model: the regenerated tables plus the hand-written transcription of "
             "lalrpop-util's lexer and driver, the user actions and validation, tied to the code by the exact correspondence of every run; the "
             "regex engine and line-col are modelled; native stack depth and running time are observed, not proved. Also decided by running: "
@@ -113,7 +114,8 @@ CLAIMS.update({
             "(C03_names_never_keywords; at the lexer: C03_ident_never_keyword, C03_token_not_later_word); validation never drops a diagnostic "
             "(C03_kept, C03_kept_all); a result without an Error diagnostic means the text's token sequence is derivable from the start "
             "symbol of the regenerated grammar, hence a malformed document always gets an Error (C03_no_error_means_wellformed, "
-            "C03_malformed_is_loud). NOT proved: the converse, well-formed => no syntax diagnostic (completeness of the LALR tables). "
+            "C03_malformed_is_loud); every derivable token sequence starts with the package keyword (FIRST of the regenerated grammar, closure-checked), so "
+            "a text that omits the package always gets an Error (C03_wellformed_starts_with_package, C03_no_package_is_loud). NOT proved: the converse, well-formed => no syntax diagnostic (completeness of the LALR tables). "
             "Decided by running: documents well-formed / malformed by construction, mutations and soups, lexical corner cases, "
             "against the oracles 'well-formed => silent', 'malformed-by-construction => Error', plus exact correspondence with the parser model.",
             "Coq proof (Error-free => derivable in the regenerated grammar, loud failure, identifiers never keywords, diagnostic preservation) + construction-based oracles + exact differential correspondence",
@@ -123,8 +125,11 @@ CLAIMS.update({
             "every diagnostic validation adds to a stored tree sits, with its related ranges, on the range of a node of that tree "
             "(C04_validation_on_nodes); every range of every stored tree node and syntax diagnostic has start <= end (C04_ranges_ordered: "
             "the stack's symbols occupy consecutive stretches of the text and an abstract run of every production's action, computed by Coq "
-            "over the regenerated action table, shows positions are passed on in text order); Position::new is sound (C04_position, "
-            "C04_range_partial, C04_boundary). NOT proved: exactness of name ranges, nesting. Those are decided by text-based oracles on "
+            "over the regenerated action table, shows positions are passed on in text order); every node's full range contains its name range "
+            "and every range of its descendants (C04_ranges_nested); sibling full ranges are disjoint and increasing "
+            "(C04_siblings_disjoint_increasing); the diagnostics validation adds are ordered as well "
+            "(C04_validated_diagnostics_ordered); Position::new is sound (C04_position, C04_range_partial, C04_boundary). NOT proved: "
+            "exactness of name and full ranges. Those are decided by text-based oracles on "
             "the implementation's output (name range covers exactly the name as written, full ranges first-to-last token, children inside "
             "parents, siblings increasing, syntax diagnostics on exactly the offending token, validation diagnostics on a node's range, the "
             "lookup table checked against the line/column specification) and by exact correspondence with the parser model.",
